@@ -157,7 +157,10 @@ func (d DocIn) String() string {
 //	adddoc Docs[0]            KVIndex.AddDoc
 //	bulk Docs...              AddDocTx for each doc inside KV.BulkWrite (kvgraph.AddVertex)
 //	update Docs...            AddDocTx for each doc inside KV.Update (aggregation processors)
-//	removedoc ID
+//	removedoc ID              KVIndex.RemoveDoc (through the per-document entry list)
+//	removedoctx ID            KVIndex.RemoveDocTx inside KV.Update with the content the document was last
+//	                          added with, the way kvgraph un-indexes the stored version of an element before
+//	                          it re-adds or deletes it; nothing happens if the document is not live
 //	counts F / scounts F      FieldTermCounts / FieldStringTermCounts (they write the recounted values back)
 type Op struct {
 	Op   string  `json:"op"`
@@ -170,8 +173,8 @@ func (o Op) String() string {
 	switch o.Op {
 	case "addfield", "removefield", "counts", "scounts":
 		return fmt.Sprintf("%s(%s)", o.Op, fieldPaths[o.F])
-	case "removedoc":
-		return fmt.Sprintf("removedoc(%s)", docIDs[o.ID])
+	case "removedoc", "removedoctx":
+		return fmt.Sprintf("%s(%s)", o.Op, docIDs[o.ID])
 	}
 	parts := make([]string, len(o.Docs))
 	for i, d := range o.Docs {
@@ -203,7 +206,7 @@ func wellFormed(c Case) error {
 			if o.F < 0 || o.F >= len(fieldPaths) {
 				return fmt.Errorf("bad field index in %v", o)
 			}
-		case "removedoc":
+		case "removedoc", "removedoctx":
 			if o.ID < 0 || o.ID >= len(docIDs) {
 				return fmt.Errorf("bad doc index in %v", o)
 			}
@@ -266,9 +269,23 @@ func buildDoc(d DocIn, ns string) map[string]interface{} {
 type spec struct {
 	fields [3]bool
 	live   map[int]map[int]tk // doc -> field -> indexed term
+	docs   map[int]DocIn      // doc -> content it was last added with
 }
 
-func newSpec() *spec { return &spec{live: map[int]map[int]tk{}} }
+func newSpec() *spec { return &spec{live: map[int]map[int]tk{}, docs: map[int]DocIn{}} }
+
+// resolve fills in what a removedoctx op needs at run time: the content the caller
+// hands to RemoveDocTx is the stored version of the document, i.e. what it was last added
+// with (no document: no call).
+func resolve(op Op, content map[int]DocIn) Op {
+	if op.Op == "removedoctx" {
+		op.Docs = nil
+		if d, ok := content[op.ID]; ok {
+			op.Docs = []DocIn{d}
+		}
+	}
+	return op
+}
 
 func (s *spec) addDoc(d DocIn) {
 	m := map[int]tk{}
@@ -280,6 +297,7 @@ func (s *spec) addDoc(d DocIn) {
 		}
 	}
 	s.live[d.ID] = m
+	s.docs[d.ID] = d
 }
 
 func (s *spec) apply(op Op) {
@@ -295,8 +313,9 @@ func (s *spec) apply(op Op) {
 		for _, d := range op.Docs {
 			s.addDoc(d)
 		}
-	case "removedoc":
+	case "removedoc", "removedoctx":
 		delete(s.live, op.ID)
+		delete(s.docs, op.ID)
 	}
 }
 
@@ -374,10 +393,11 @@ type sim struct {
 	entries map[ent]bool
 	terms   map[fterm]uint64 // term key present; 0 = count invalidated
 	docs    map[int][]ent    // per-document entry list ("D" keys)
+	content map[int]DocIn    // what the caller knows as the stored version of each document
 }
 
 func newSim(bugs uint) *sim {
-	return &sim{bugs: bugs, entries: map[ent]bool{}, terms: map[fterm]uint64{}, docs: map[int][]ent{}}
+	return &sim{bugs: bugs, entries: map[ent]bool{}, terms: map[fterm]uint64{}, docs: map[int][]ent{}, content: map[int]DocIn{}}
 }
 
 func (s *sim) clone() *sim {
@@ -390,6 +410,10 @@ func (s *sim) clone() *sim {
 	}
 	for k, v := range s.docs {
 		o.docs[k] = append([]ent(nil), v...)
+	}
+	o.content = make(map[int]DocIn, len(s.content))
+	for k, v := range s.content {
+		o.content[k] = v
 	}
 	return o
 }
@@ -440,6 +464,31 @@ func (s *sim) removeDoc(id int) bool {
 	return true
 }
 
+// removeDocTx: KVIndex.RemoveDocTx with the given content: the entries are computed from
+// the content and the registered fields, the per-document list is neither used nor updated.
+func (s *sim) removeDocTx(d DocIn) {
+	for f := range fieldPaths {
+		if !s.fields[f] {
+			continue
+		}
+		v, ok := d.T[f].value()
+		if !ok {
+			continue
+		}
+		e := ent{f, tkOf(v), d.ID}
+		if !s.entries[e] {
+			continue
+		}
+		delete(s.entries, e)
+		ft := fterm{f, e.k}
+		if s.recount(ft) > 0 {
+			s.terms[ft] = 0
+		} else {
+			delete(s.terms, ft)
+		}
+	}
+}
+
 func (s *sim) addDoc(d DocIn, bug uint) bool {
 	if s.bugs&bug == 0 {
 		if !s.removeDoc(d.ID) {
@@ -459,6 +508,7 @@ func (s *sim) addDoc(d DocIn, bug uint) bool {
 		}
 	}
 	s.docs[d.ID] = rec
+	s.content[d.ID] = d
 	return true
 }
 
@@ -500,6 +550,12 @@ func (s *sim) apply(op Op) (next *sim, failed bool, counts []termCount) {
 		if !w.removeDoc(op.ID) {
 			return s, true, nil
 		}
+		delete(w.content, op.ID)
+	case "removedoctx":
+		if len(op.Docs) == 1 {
+			w.removeDocTx(op.Docs[0])
+			delete(w.content, op.ID)
+		}
 	case "counts", "scounts":
 		var fts []fterm
 		for ft := range w.terms {
@@ -531,6 +587,14 @@ func (s *sim) equal(o *sim) bool {
 	}
 	for ft, c := range s.terms {
 		if oc, ok := o.terms[ft]; !ok || oc != c {
+			return false
+		}
+	}
+	if len(s.content) != len(o.content) {
+		return false
+	}
+	for id, d := range s.content {
+		if od, ok := o.content[id]; !ok || od != d {
 			return false
 		}
 	}
@@ -1063,6 +1127,13 @@ func (j *judgeRun) exec(op Op) error {
 		})
 	case "removedoc":
 		return j.idx.RemoveDoc(j.dname(op.ID))
+	case "removedoctx":
+		if len(op.Docs) != 1 {
+			return nil
+		}
+		return j.kv.Update(func(tx kvi.KVTransaction) error {
+			return j.idx.RemoveDocTx(tx, j.dname(op.ID), buildDoc(op.Docs[0], j.ns))
+		})
 	}
 	return nil
 }
@@ -1465,14 +1536,15 @@ func judge(c Case, driver string) ([]finding, caseInfo) {
 	j.probes = probeTerms(c)
 	for i, op := range c.Ops {
 		j.step = i
+		op = resolve(op, j.sp.docs)
 		// classification (generator health)
 		switch op.Op {
-		case "removedoc":
+		case "removedoc", "removedoctx":
 			if _, ok := j.sp.live[op.ID]; ok {
-				j.info.classes["removedoc-present"] = true
+				j.info.classes[op.Op+"-present"] = true
 				j.afterChange = true
 			} else {
-				j.info.classes["removedoc-absent"] = true
+				j.info.classes[op.Op+"-absent"] = true
 			}
 		case "adddoc", "bulk", "update":
 			for _, d := range op.Docs {
